@@ -7,7 +7,7 @@ import (
 
 // C57 (partial) — XSRF tokens are bound to key, user, action and time window.
 //
-//   clean     for s, s' of 0..3 symbolic bytes: clean(s) contains no ':' and clean(s) == clean(s') => s == s'.
+//   clean     for s, s' of 0..3 (thorough 0..4) symbolic bytes: clean(s) contains no ':' and clean(s) == clean(s') => s == s'.
 //             Paper step: the MAC input is clean(u) + ":" + clean(a) + ":" + decimal; since neither clean(u) nor
 //             clean(a) contains ':', the first two ':' are the separators, so equal MAC inputs have equal clean(u)
 //             and clean(a) and (by injectivity) equal u and a.
@@ -17,7 +17,7 @@ import (
 //             (key', u', a') == (key, u, a) and issue-1min <= now and now-issue < timeout, issue = t0 rounded up to
 //             the millisecond. HMAC-SHA1, base64, %d formatting and ParseInt run on concrete data (the real
 //             library code is executed), so the MAC's strength is not part of the claim.
-//   rounding  for symbolic t in [0, 2^60): m = (t + 1e6 - 1) / 1e6 as written in generateTokenAtTime satisfies
+//   rounding  for symbolic t in [0, 2^62): m = (t + 1e6 - 1) / 1e6 as written in generateTokenAtTime satisfies
 //             (m-1)*1e6 < t <= m*1e6 (round up to the millisecond, no overflow).
 //   tamper    a token whose MAC part or timestamp part was altered in one symbolic position is never valid.
 // Outside the claim: symbolic issue times through decimal formatting, MAC strength, Generate/Valid wall clock.
@@ -26,6 +26,7 @@ import (
 //   xsrf.go clean             the two ReplaceAll lines swapped
 //   xsrf.go validTokenAtTime  `now.Sub(issueTime) >= timeout` -> `> timeout`
 //   xsrf.go generateTokenAtTime `+ 1e6 - 1` -> `+ 1e6`
+//   xsrf.go validTokenAtTime  `now.Add(1 * time.Minute)` -> `now.Add(1 * time.Second)`
 
 func init() {
 	vfRegister("VerifC57_clean", VerifC57_clean)
@@ -35,9 +36,10 @@ func init() {
 }
 
 func VerifC57_clean() {
-	n1 := vfLen("n1", 0, 3)
+	maxn := 3 + vfTier()
+	n1 := vfLen("n1", 0, maxn)
 	s1 := vfString("s1", n1)
-	n2 := vfLen("n2", 0, 3)
+	n2 := vfLen("n2", 0, maxn)
 	s2 := vfString("s2", n2)
 	c1, c2 := clean(s1), clean(s2)
 	vfAssert(!strings.Contains(c1, ":"), "clean(s) contains no ':'")
@@ -133,7 +135,7 @@ func c57itoa(v int64) string {
 func VerifC57_rounding() {
 	t := vfI64("t")
 	vfAssume(t >= 0)
-	vfAssume(t < 1<<60)
+	vfAssume(t < 1<<62)
 	m := (t + 1e6 - 1) / 1e6 // the expression of generateTokenAtTime
 	vfAssert(m*1000000 >= t, "rounded up: issue >= t")
 	vfAssert(m*1000000-t < 1000000, "less than one millisecond later")
